@@ -827,6 +827,8 @@ def rule_gpwait(ctx, rep):
 
 META["explanation"] += " " + 'Also (round 13): no library path waits for a grace period while it or a caller holds a lock that call_rcu() takes inside its read-side section (C03.gpwait, over the lock-order graph with caller contexts).'
 
+META["explanation"] += " " + 'Also (round 14): fork-child hand-over rules shared from C16 (every inherited helper replaced or emptied).'
+
 RULES = [
     ("C03.helper", rule_helper_loop),
     ("C03.init", rule_init_before_thread),
